@@ -39,7 +39,7 @@ EStep ==
        ELSE IF Ev.do = "rows" /\ up /\ Ev.json.ok /\ Ev.name \in {"canary-s-1", "canary-s-2"}
             THEN (IF \E k \in DOMAIN Ev.json.promises : Ev.json.promises[k].sched = Ev.name \o "-" \o sc.sid THEN ""
                   ELSE "background processing is wedged: a schedule created afterwards never fires")
-       ELSE IF Ev.do = "rows" /\ up /\ Ev.json.ok
+       ELSE IF Ev.do = "rows" /\ up /\ Ev.json.ok /\ Ev.name \in {"canary-t-1", "canary-t-2"}
                /\ ~ \E k \in DOMAIN Ev.json.promises : Ev.json.promises[k].id = Ev.name \o "-" \o sc.sid /\ Ev.json.promises[k].state = 16
             THEN "background processing is wedged: a promise created afterwards is never timed out"
        ELSE IF Ev.do \in {"http", "grpc"} /\ Ev.name = "hostile" /\ Ev.class = "none" THEN "no reply to the request"
